@@ -438,15 +438,25 @@ Inductive op :=
 | OResetToStart
 | OReserve (h : nat) (n : Z)
 | OTryErr (h : nat) (mutable : bool) (size align : Z)   (* alloc_try_with(_mut) whose closure returns Err *)
+| OStats (h : nat)                                      (* statistics as seen through handle h *)
+| OAlignPush (h : nat) (n : Z)                          (* aligned::<n> / scoped_aligned::<n> entry (after its checkpoint) *)
+| OAlignPop (realign : bool)                            (* leaving it; realign = the BumpAlignGuard of `aligned` *)
+| OPrepare (h : nat) (es ea cap : Z) (rev : bool)       (* (try_)prepare_slice_allocation(_rev)::<T>(cap) *)
+| OWriteRaw (addr len seed : Z)                         (* the owner of a prepared region fills part of it *)
+| OCommit (h : nat) (es ea ptr len cap : Z) (rev dyn : bool)  (* allocate_prepared_slice(_rev) *)
 | OClaim (h : nat)
 | OUnclaim
 | ODrop.
+
+Record stats := mkStats { st_count : Z; st_size : Z; st_capacity : Z; st_allocated : Z; st_remaining : Z }.
 
 Inductive result :=
 | RBlock (id : nat) (ptr size : Z)     (* a block was returned (id = its ghost id) *)
 | RErr (e : err)
 | RUnit
 | RCheckpoint (cp : checkpoint)
+| RStats (st : stats) (claimed : bool)
+| RRange (ptr cap : Z)                  (* a prepared slice: pointer (end pointer for rev) and capacity *)
 | RPanic.                               (* unwinding panic (second claim) *)
 
 Record out := mkOut { o_res : result; o_events : list event; o_ub : bool }.
@@ -472,7 +482,6 @@ Definition chunks_after (s : arena) : list chunk :=
   match cur s with Cur i => skipn (S i) (chunks s) | _ => [] end.
 Definition sumZ (l : list Z) : Z := fold_right Z.add 0 l.
 
-Record stats := mkStats { st_count : Z; st_size : Z; st_capacity : Z; st_allocated : Z; st_remaining : Z }.
 
 Definition arena_stats (c : cfg) (s : arena) : stats :=
   match cur_chunk s with
@@ -514,6 +523,26 @@ Definition log_events (s : arena) (es : list event) : arena :=
 
 Definition zero_fill (s : arena) (start len : Z) : arena :=
   upd_mem s (mem_fill (mem s) start len (fun _ => 0)).
+
+(* prepare_slice_allocation: the largest aligned range of the (possibly new) current chunk *)
+Definition raw_prepare_range (c : cfg) (s : arena) (size align : Z) (r : resp) : arena * ((Z * Z) + err) :=
+  let f := fun ch => match chunk_prepare c ch size align with Some rng => Some (rng, ch) | None => None end in
+  match cur s with
+  | Cur i =>
+    match nth_error (chunks s) i with
+    | Some ch =>
+      match f ch with
+      | Some (rng, _) => (s, inl rng)
+      | None => in_another_chunk c s (cur s) size align f r
+      end
+    | None => (s, inr ErrOverflow)
+    end
+  | h => in_another_chunk c s h size align f r
+  end.
+
+(* set_pos_addr_and_align_from (typed) / set_pos_addr_and_align (dyn) *)
+Definition commit_pos (c : cfg) (m ea : Z) (dyn : bool) (x : Z) : Z :=
+  if dyn || (ea <? m) then align_posZ (up c) m x else x.
 
 (* RawBump::reset_to *)
 Definition do_reset_to (c : cfg) (s1 : arena) (cp : checkpoint) : arena :=
@@ -663,6 +692,65 @@ Definition step (c : cfg) (s0 : arena) (o : op) (r : resp) : arena * out :=
     else finish s RPanic false
   | OUnclaim =>
     finish (upd_depth s (pred (depth s))) RUnit false
+  | OStats h =>
+    if is_top s h then finish s (RStats (arena_stats c s) false) false
+    else finish s (RStats (mkStats 0 0 0 0 0) true) false
+  | OAlignPush h n =>
+    let m := malign s in
+    let s1 := if (m <? n) then match cur_chunk s with Some ch => set_cur_pos s (align_posZ (up c) n (cpos ch)) | None => s end else s in
+    finish (upd_aligns s1 (n :: aligns s1)) RUnit false
+  | OAlignPop realign =>
+    match aligns s with
+    | inner :: outer :: rest =>
+      let s1 := upd_aligns s (outer :: rest) in
+      if realign && (inner <? outer) then
+        match cur_chunk s1 with
+        | Some ch => finish (set_cur_pos s1 (align_posZ (up c) outer (cpos ch))) RUnit false
+        | None => finish s1 RUnit false
+        end
+      else finish s1 RUnit false
+    | _ => finish s RUnit false
+    end
+  | OPrepare h es ea cap rev =>
+    if negb (is_top s h) then finish s (RErr ErrClaimed) false else
+    if IMAX <? es * cap + (ea - 1) then finish s (RErr ErrOverflow) false else
+    match raw_prepare_range c s (es * cap) ea r with
+    | (s1, inl (st, en)) =>
+      let cap' := (en - st) / es in
+      let ptr := if rev then (if up c then st + cap' * es else en)
+                 else (if up c then st else en - cap' * es) in
+      finish s1 (RRange ptr cap') false
+    | (s1, inr e) => finish s1 (RErr e) false
+    end
+  | OWriteRaw addr len seed =>
+    finish (upd_mem s (mem_fill (mem s) addr len (pattern seed))) RUnit false
+  | OCommit h es ea ptr len cap rev dyn =>
+    let m := malign s in
+    let bytes := len * es in
+    if rev then
+      if up c then
+        let dst := ptr - cap * es in
+        let src := ptr - bytes in
+        let s1 := upd_mem s (mem_copy (mem s) src dst bytes) in
+        let s2 := set_cur_pos s1 (commit_pos c m ea dyn (dst + bytes)) in
+        let '(s3, id) := add_block s2 dst bytes ea in
+        finish s3 (RBlock id dst bytes) false
+      else
+        let dst := ptr - bytes in
+        let s2 := set_cur_pos s (commit_pos c m ea dyn dst) in
+        let '(s3, id) := add_block s2 dst bytes ea in
+        finish s3 (RBlock id dst bytes) false
+    else
+      if up c then
+        let s2 := set_cur_pos s (commit_pos c m ea dyn (ptr + bytes)) in
+        let '(s3, id) := add_block s2 ptr bytes ea in
+        finish s3 (RBlock id ptr bytes) false
+      else
+        let dst := ptr + cap * es - bytes in
+        let s1 := upd_mem s (mem_copy (mem s) ptr dst bytes) in
+        let s2 := set_cur_pos s1 (commit_pos c m ea dyn dst) in
+        let '(s3, id) := add_block s2 dst bytes ea in
+        finish s3 (RBlock id dst bytes) false
   | ODrop =>
     let s1 := upd_live s [] in
     if Nat.eqb (depth s1) 0 then
